@@ -3,7 +3,7 @@
     Model: GridEdit.v (t2grid edit state machine).  Invariant: Inv.v. *)
 From Coq Require Import Ascii String List Bool PArith NArith FMapPositive Permutation.
 From PTBase Require Import Exn PyStr.
-From P Require Import Assoc GridEdit GridLemmas Inv InvRock InvBlock InvConn InvRename InvReorder InvMinc InvAdd InvEmbed InvDec Reach Witness.
+From P Require Import Assoc GridEdit GridLemmas Inv InvRock InvBlock InvConn InvRename InvReorder InvMinc InvAdd InvEmbed InvDec InvAfter Reach Witness.
 Import ListNotations.
 Open Scope list_scope.
 
@@ -29,6 +29,30 @@ Theorem embed_preserves : forall g a b j fits r, Inv (with_view g a) -> Inv (wit
   ~ In j (v_clist a) -> ~ In j (v_clist b) -> (j < next g)%positive -> embed g a b j fits = Ok (Some r) -> Inv r.
 Proof. exact embed_inv. Qed.
 Print Assumptions embed_preserves.
+
+(** rename_blocks with the default fix_blocknames = True: the map is first rewritten by fix_block_mapping (names in the
+    (a3, i2) spelling become the names of the grid); then as rename_blocks, of the rewritten map *)
+Theorem rename_blocks_fix_preserves : forall g m g',
+  Inv g -> (forall m', fix_block_mapping m = Ok m' -> inj_on_blocks g m') -> rename_blocks_fix g m = Ok g' -> Inv g'.
+Proof. exact (fun g m g' I P H => step_inv g (RenameFix m) g' I P H). Qed.
+Print Assumptions rename_blocks_fix_preserves.
+
+(** a REFUSED edit (the method raises; the caller may catch the exception and keep the grid) leaves a consistent grid:
+    [after g o] is the state in which [step g o] raises *)
+Theorem refused_edit_leaves_consistent_grid : forall g o e, Inv g -> pre_after g o -> step g o = Raise e -> Inv (after g o).
+Proof. exact after_inv. Qed.
+Print Assumptions refused_edit_leaves_consistent_grid.
+(** ... and the invariant holds after every sequence of edits of which any number are refused *)
+Theorem grid_inv_reachable_catching : forall ops g, Inv g -> pre_on g ops -> Inv (run_on g ops).
+Proof. exact inv_reachable_on. Qed.
+Print Assumptions grid_inv_reachable_catching.
+
+(** ... except after delete_connection / delete_block of a block that is connected with itself: refused half way *)
+Theorem deleting_a_self_connection_is_refused_and_breaks_inv :
+  exists g a, Inv g /\ step g (DelConn a a) = Raise KeyError /\ step g (DelBlock a) = Raise KeyError /\
+              ~ Inv (after g (DelConn a a)) /\ ~ Inv (after g (DelBlock a)).
+Proof. exact delete_self_connection_refuted. Qed.
+Print Assumptions deleting_a_self_connection_is_refused_and_breaks_inv.
 
 (** the three preconditions cannot be dropped: the faithful model carries the listed findings *)
 Theorem add_block_replacing_connected_block_breaks_inv :
@@ -83,3 +107,12 @@ Theorem example_minc_refuses_colliding_matrix_names :
             minc mb1 mr1 1 [] [] g = Raise PlainException /\ minc mb1 mr1 1 [a1] [] g <> Raise PlainException.
 Proof. exact minc_colliding_matrix_names_refused. Qed.
 Print Assumptions example_minc_refuses_colliding_matrix_names.
+Theorem example_rename_with_unfixed_names :
+  exists g', step g_fix (RenameFix [(s2l "ab1 1", s2l "cd1 1"); (ab102, s2l "ab1 1")]) = Ok g' /\
+             map (bn g') (blist g') = [s2l "cd101"; ab101] /\ map fst (cdict g') = [(s2l "cd101", ab101)] /\
+             cn g' 2%positive = [(s2l "cd101", ab101)] /\ inv_b g' = true.
+Proof. exact rename_fix_example. Qed.
+Print Assumptions example_rename_with_unfixed_names.
+Theorem example_sequence_with_refused_edits_meets_pre : pre_on g_pair ops_refused.
+Proof. exact refused_sequence_pre. Qed.
+Print Assumptions example_sequence_with_refused_edits_meets_pre.
